@@ -14,6 +14,8 @@ def idx_term(i):
         if i.is_const() and i.v.denominator == 1:
             return int(i.v)
         raise Unsupported("float index")
+    if isinstance(i, z3.ExprRef):
+        return z3.simplify(i)       # canonical index terms: k - 1, k + -1 and -1 + k are the same term
     return i
 
 
@@ -63,7 +65,7 @@ class SymArr:
             c.index_terms_add(i)
         it = i if not isinstance(i, int) else z3.IntVal(i)
         memo = self.__dict__.setdefault("_memo", {})
-        h = (tid(it), id(self._elem))
+        h = (tid(it), id(self._elem), EPOCH[0])
         if h not in memo:
             memo[h] = self._elem(it)
         return memo[h]
@@ -170,6 +172,15 @@ class SymArr:
         return f"SymArr(len={self.length}, kind={self.kind})"
 
 
+ALIAS_ON = [True]
+EPOCH = [0]     # bumped when a proved lemma installs a fold alias: element memos are re-evaluated afterwards
+
+
+def set_alias(fold, parent, lim):
+    fold.alias_to = (parent, lim)
+    EPOCH[0] += 1
+
+
 def vite(c, a, b):
     """if-then-else over interpreter scalars"""
     if isinstance(c, SBool):
@@ -269,6 +280,12 @@ class GhostFold:
     def at(self, k):
         """fold over the first k elements"""
         k = idx_term(k)
+        al = getattr(self, "alias_to", None)
+        if al is not None and not isinstance(k, int) and ALIAS_ON[0]:
+            parent, lim = al
+            c = ctx()
+            if c is not None and c.known_true(zb(band(icmp(">=", k, 0), icmp("<=", k, lim)))):
+                return parent.at(k)    # justified by a proved lemma: the two folds agree on [0, lim]
         arr = self.arr
         if arr.items is not None:
             if not isinstance(k, int):
